@@ -109,5 +109,14 @@ def run(run, replay=None):
     unit = build(run)
     res = unit.run(rlimit=60)
     run.add_verus(unit, res, cex_finder=lambda f: _cex.find(run, f))
-    run.assumptions.append("Callee contracts assumed, not proved: Context::try_cmp and supertype_of_tp on integer-constant TyParams (exact ordering / equality), TyParam::has_upper_bound/has_lower_bound (true on integer constants), TyParam::eq complete on integer constants.")
+    # The assumed contract of Context::try_cmp on constants rests on its first two steps being literally the equality test and the
+    # value comparison that the Kani unit verifies; a change of that glue is a lost anchor (exit 2), not silently accepted.
+    from vlib.extract import Source, LostAnchor
+    ctc = ' '.join(Source(run.repo, 'crates/erg_compiler/context/compare.rs').fn('try_cmp', impl=r'Context').text.split())
+    for frag in ('if l == r { return Some(Equal); }', '(TyParam::Value(l), TyParam::Value(r)) => l.try_cmp(r).map(Into::into),'):
+        if frag not in ctc:
+            raise LostAnchor("Context::try_cmp: `%s` not found (the chain Context::try_cmp -> ValueObj::try_cmp the assumed contract rests on)" % frag)
+    from units.C03 import kani as _kani
+    _kani.run_kani(run)     # the value comparison Context::try_cmp bottoms out in (ValueObj::try_cmp, PartialEq for ValueObj)
+    run.assumptions.append("Context::try_cmp on integer-constant TyParams: its two first steps (`l == r`, then `l.try_cmp(r).map(Into::into)` for two values) are checked textually and ValueObj::try_cmp / PartialEq for ValueObj are verified by Kani over the full domain of the integer classes; the glue between them (TyParam::Value wrapping, PartialEq for TyParam, From<Ordering> for TyParamOrdering) stays assumed. Callee contracts assumed, not proved: supertype_of_tp on integer-constant TyParams (equality), TyParam::has_upper_bound/has_lower_bound (true on integer constants), TyParam::eq complete on integer constants.")
     run.assumptions.append("Not carried: the (And, And), (Or, Or), (lhs, Or), (Or, rhs), Call and General* arms (iterator/closure/Set::get_by/reduce_preds) and structural_supertype_of's refinement arm that calls this function. Observation (read, not machine-checked): the (And, And) arm checks for every rhs conjunct that SOME lhs conjunct is a super-predicate of it, where soundness needs that for every lhs conjunct some rhs conjunct is below it.")
